@@ -41,7 +41,9 @@ def one_event(ck, eid, env, f, fj, asg, present, completion, want_sat, reuse=Fal
         with warnings.catch_warnings():
             warnings.simplefilter("ignore")
             # the plural entry points are other spellings of the same question
-            way = PLURAL[0] % 4
+            # (drawn, not counted: a counter modulo 4 ran in lockstep with the order of the partial-model plans, and
+            # with some seeds the plural spellings never met a plan without completion)
+            way = ck.rng.randrange(4)
             PLURAL[0] += 1
             if way == 1:
                 r = model.get_values([f], model_completion=completion)[f]
